@@ -49,8 +49,13 @@ def RULE(tier):
         if tier == "quick"
         else "every ORDERED pair, plus every unordered triple inside one family group"
     )
+    extra += (
+        "; plus INTERLEAVED-KIND tuples over 5 kinds (array, bag, delayed, dataframe, bag Item) x 3 distinct members: (x_i, y, x_j) for every "
+        "ordered kind pair, every ordered pair of distinct members i != j and every y; 4-tuples (x_i, y_a, x_j, y_b) and three-kind 4-tuples"
+    )
     return (
-        f"universe of {len(u)} near-identical collections {groups} (from_array over dtype/layout/shape/chunk/object-string variants, "
+        f"universe of {len(u)} near-identical collections {groups} (from_array over dtype/layout/shape/chunk/object-string/record-dtype variants (same buffer, other field names/order/types) and their "
+        "field access, 2- and 9-step linear pipelines of identical long-named steps over different inputs (bag map/filter, pure delayed, map_blocks), "
         "elementwise/unary/binary/map_blocks results, bags from sequences differing in nesting/partitioning/element type, pure delayed "
         "calls/objects/operators differing in argument order, container kind, scalar type, nested-delayed order, pandas frames equal up "
         f"to dtype/index/column order/block placement, unseeded random arrays); {extra}; each tuple computed with dask.compute(...) under "
@@ -63,6 +68,7 @@ def RULE(tier):
 # scalars (int, float, bool, str, bytes, None) are literal; everything else is tagged:
 #   ("L", items) list  ("T", items) tuple  ("S", items) set  ("D", ((k, v), ...)) dict  ("s", a, b, c) slice
 #   ("np", cells, shape, dtype, layout) ndarray   ("obj", items) 1-d object ndarray   ("np0", dtype, v) numpy scalar
+#   ("rec", fields, cells) record array: the int32 buffer `cells` viewed with the structured dtype `fields`
 #   ("d", name) named delayed leaf   ("dl", descriptor) nested delayed collection (lazy) / its eager value
 DVALS = {"a": 1, "b": 2, "c": (1, 2), "l": [3, 4]}
 
@@ -122,6 +128,8 @@ def dec(e, lazy):
         return out
     if tag == "np0":
         return np.dtype(e[1]).type(e[2])
+    if tag == "rec":  # structured (record) view of one little-endian int32 buffer: ("rec", fields, cells)
+        return np.array(e[2], dtype="<i4").view(np.dtype([tuple(f) for f in e[1]])).copy()
     if tag == "d":
         return delayed(DVALS[e[1]], name=e[1]) if lazy else DVALS[e[1]]
     if tag == "dl":
@@ -148,6 +156,80 @@ def fingerprint(k):
 
 def addfp(x, k=None):
     return x + fingerprint(k)
+
+
+# ---- long linear pipelines: the same steps (long function names -> over-long fused key names) applied to different inputs
+def pipeline_step_add_three_to_every_value(x):
+    return x + 3
+
+
+def pipeline_step_double_every_single_value(x):
+    return x * 2
+
+
+def pipeline_step_subtract_one_from_value(x):
+    return x - 1
+
+
+def pipeline_step_square_each_of_the_values(x):
+    return x * x
+
+
+def pipeline_step_negate_all_of_the_values(x):
+    return -x
+
+
+def pipeline_step_add_ten_to_every_value(x):
+    return x + 10
+
+
+def pipeline_step_triple_every_single_value(x):
+    return x * 3
+
+
+def pipeline_step_subtract_seven_from_value(x):
+    return x - 7
+
+
+def pipeline_predicate_keep_values_above_eight(x):
+    return x > 8
+
+
+CHAIN_STEPS = [
+    pipeline_step_add_three_to_every_value,
+    pipeline_step_double_every_single_value,
+    pipeline_predicate_keep_values_above_eight,  # bags: filter; delayed / arrays: skipped
+    pipeline_step_subtract_one_from_value,
+    pipeline_step_square_each_of_the_values,
+    pipeline_step_negate_all_of_the_values,
+    pipeline_step_add_ten_to_every_value,
+    pipeline_step_triple_every_single_value,
+    pipeline_step_subtract_seven_from_value,
+]
+
+
+def build_chain(kind, x, n):
+    for f in CHAIN_STEPS[:n]:
+        pred = f is pipeline_predicate_keep_values_above_eight
+        if kind == "bag":
+            x = x.filter(f) if pred else x.map(f)
+        elif pred:
+            continue
+        elif kind == "dly":
+            x = delayed(f, pure=True)(x)
+        else:
+            x = x.map_blocks(f, dtype=x.dtype)
+    return x
+
+
+def eager_chain(kind, x, n):
+    for f in CHAIN_STEPS[:n]:
+        pred = f is pipeline_predicate_keep_values_above_eight
+        if kind == "bag":
+            x = [v for v in x if f(v)] if pred else [f(v) for v in x]
+        elif not pred:
+            x = f(x)
+    return x
 
 
 BINOPS = {"add": operator.add, "sub": operator.sub, "mul": operator.mul, "getitem": operator.getitem, "truediv": operator.truediv}
@@ -203,6 +285,10 @@ def build(d):
     if k == "un":
         a = build(d[2])
         return {"neg": lambda: -a, "T": lambda: a.T, "rev": lambda: a[::-1], "sum": lambda: a.sum(), "sum0": lambda: a.sum(axis=0)}[d[1]]()
+    if k == "fld":
+        return build(d[2])[d[1]]
+    if k == "chain":
+        return build_chain(d[1], build(d[2]) if d[1] != "dly" else dec(d[2], True), d[3])
     if k == "mb":
         a = build(d[1])
         return da.map_blocks(addfp, a, k=dec(d[2], True), dtype=a.dtype)
@@ -280,6 +366,10 @@ def eager(d):
     if k == "un":
         a = eager(d[2])
         return {"neg": lambda: -a, "T": lambda: a.T, "rev": lambda: a[::-1], "sum": lambda: a.sum(), "sum0": lambda: a.sum(axis=0)}[d[1]]()
+    if k == "fld":
+        return eager(d[2])[d[1]]
+    if k == "chain":
+        return eager_chain(d[1], eager(d[2]) if d[1] != "dly" else dec(d[2], False), d[3])
     if k == "mb":
         return addfp(eager(d[1]), k=dec(d[2], False))
     if k == "bag":
@@ -360,7 +450,7 @@ def universe(tier):
         objs += [("obj", ("a--b", "c")), ("obj", ("a", "-b-c")), ("obj", ("ab", "c")), ("obj", ("a", "bc")), ("obj", (b"a", "b-c"))]
     for v in one_d:
         add("arr-fa", ("fa", v, (4,)))
-    for v in one_d[:4] + one_d[13:15] + (one_d[4:13] if T else []):
+    for v in one_d[:4] + (one_d[13:15] + one_d[4:13] if T else []):
         add("arr-fa", ("fa", v, (2, 2)))
     if T:
         for v in one_d[:2]:
@@ -368,12 +458,27 @@ def universe(tier):
             add("arr-fa", ("fa", v, (3, 1)))
     for v in two_d:
         add("arr-fa", ("fa", v, tuple(v[2])))
-    for v in two_d[:4]:
+    for v in two_d[: 4 if T else 2]:
         add("arr-fa", ("fa", v, (1, 2)))
     for v in objs:
         add("arr-faobj", ("fa", v, (len(v[1]),)))
     for v in objs[:3]:
         add("arr-faobj", ("fa", v, (1,)))
+    # ---- arrays: record (structured) dtypes -- same buffer, same itemsize, other field names / order / types
+    c12 = tuple(range(1, 13))
+    recs = [
+        ("rec", (("a", "<i4"), ("b", "<i4")), c12),
+        ("rec", (("b", "<i4"), ("a", "<i4")), c12),
+        ("rec", (("a", "<i4"), ("b", "<f4")), c12),
+        ("rec", (("a", "<i8"),), c12),
+        ("rec", (("a", "<i4"), ("c", "<i4")), c12),
+        ("rec", (("a", "<i4"), ("b", "<i4")), c12[::-1]),
+    ]
+    for v in recs:
+        add("arr-farec", ("fa", v, (3, 3)))
+        add("arr-farec", ("ew", "mul", ("fld", "a", ("fa", v, (3, 3))), ("v", 2)))
+    for v in recs[:3]:
+        add("arr-farec", ("fa", v, (6,)))
     # ---- arrays: elementwise / unary / binary results on a core subset
     A = ("fa", NP(), (2, 2))
     Af = ("fa", NP(dtype="f8"), (2, 2))
@@ -426,7 +531,7 @@ def universe(tier):
     add("bag-seq", ("bag", seqs[0], ("np", 4)))
     add("bag-seq", ("bag", seqs[0], ("ps", 2)))
     add("bag-seq", ("bag", seqs[0], ("ps", 3)))
-    for s, part in ((seqs[0], ("np", 2)), (seqs[2], ("np", 2)), (seqs[0], ("np", 1)), (seqs[1], ("np", 2))):
+    for s, part in ((seqs[0], ("np", 2)), (seqs[2], ("np", 2)), (seqs[0], ("np", 1))):
         for op in ("inc", "str", "odd", "sum", "count", "max"):
             add("bag-op", ("bop", op, ("bag", s, part)))
     for s in (seqs[5], seqs[6], seqs[7]):
@@ -495,6 +600,9 @@ def universe(tier):
     ]
     for args, kw in argsets:
         add("dly-call", ("call", True, "tup", args, kw))
+    for v in recs[:4]:
+        add("dly-call", ("call", True, "tup", (v,), ()))
+        add("dly-obj", ("dobj", True, v))
     add("dly-call", ("call", True, "inc", (1,), ()))
     add("dly-call", ("call", True, "inc", (1.0,), ()))
     add("dly-call", ("call", True, "inc", (a,), ()))
@@ -533,7 +641,7 @@ def universe(tier):
     ]
     for v in objvals:
         add("dly-obj", ("dobj", True, v))
-    for v in (("L", (a, b)), ("L", (b, a)), 1):
+    for v in (("L", (a, b)), ("L", (b, a)), 1) if T else (("L", (a, b)),):
         add("dly-obj", ("dobj", False, v))
     # a single program that contains two near-identical sub-collections
     lab, lba = ("dl", ("dobj", True, ("L", (a, b)))), ("dl", ("dobj", True, ("L", (b, a))))
@@ -596,23 +704,69 @@ def universe(tier):
         add("df-fp", ("df", fd, 2, True))
     add("df-fp", ("df", frames[10], 1, False))
     add("df-fp", ("df", frames[0], 2, False))
-    for fd in (frames[0], frames[1], frames[4]):
+    for fd in (frames[0], frames[1], frames[4]) if T else (frames[0], frames[4]):
         for op in ("a", "a+1", "sum", "gt", "assign_i", "assign_f", "index"):
             add("df-op", ("dfop", op, ("df", fd, 2, True)))
 
-    # ---- unseeded random collections (two builds of the same descriptor are different collections)
+    # ---- long linear pipelines of identical steps over different inputs (2 steps = short control, 9 = over-long fused names)
+    for n in (2, 9):
+        m = 3 if (n == 9 or T) else 1  # the short control chain on one input per kind in the quick tier
+        for seq, part in (([1, 2, 3, 4, 5, 6], ("np", 2)), ([3, 2, 1, 4, 2, 2], ("np", 2)), ([1, 2, 3, 4, 5, 6], ("np", 1)))[:m]:
+            add("bag-chain", ("chain", "bag", ("bag", seq, part), n))
+        for leaf in (("d", "a"), ("d", "b"), 1)[:m]:
+            add("dly-chain", ("chain", "dly", leaf, n))
+        for base in (A, Ar, ("fa", NP(), (4,)))[:m]:
+            add("arr-chain", ("chain", "arr", base, n))
+    # ---- unseeded random collections (the self pair i == j is two independent builds = two different collections)
     for kind in ("random", "normal", "rs", "rng", "impure"):
-        add("rnd", ("rand", kind))
         add("rnd", ("rand", kind))
     _UNIVERSE[tier] = U
     return U
 
 
 # ====================================================================== cases
+def interleave_members():
+    """3 DISTINCT, differently valued members per collection kind (results in swapped positions are visible)"""
+    fr = lambda vals: ("dict", (("a", "i8", vals),), None)  # noqa: E731
+    return {
+        "arr": [("arr-fa", ("fa", NP(), (2, 2))), ("arr-ew", ("ew", "add", ("fa", NP(), (2, 2)), ("v", 1))), ("arr-fa", ("fa", NP(cells=(4, 3, 2, 1)), (4,)))],
+        "bag": [("bag-seq", ("bag", [1, 2, 3, 4], ("np", 2))), ("bag-op", ("bop", "inc", ("bag", [1, 2, 3, 4], ("np", 2)))), ("bag-seq", ("bag", [4, 3, 2, 1], ("np", 1)))],
+        "dly": [("dly-call", ("call", True, "tup", (1, 2), ())), ("dly-op", ("dop", "add", ("d", "a"), ("d", "b"))), ("dly-call", ("call", True, "inc", (1.0,), ()))],
+        "df": [("df-fp", ("df", fr((1, 2, 3, 4)), 2, True)), ("df-op", ("dfop", "a+1", ("df", fr((1, 2, 3, 4)), 2, True))), ("df-fp", ("df", fr((5, 6, 7, 8)), 1, True))],
+        "item": [("bag-op", ("bop", "sum", ("bag", [1, 2, 3, 4], ("np", 2)))), ("bag-op", ("bop", "max", ("bag", [1, 2, 3, 4], ("np", 2)))), ("bag-op", ("bop", "count", ("bag", [4, 3, 2, 1], ("np", 1))))],
+    }
+
+
+def interleaved_cases(tier):
+    """tuples whose collection KINDS interleave: (x_i, y, x_j), (x_i, y_a, x_j, y_b), (x, y, z, x') -- every ordered kind pair / triple,
+    every ordered pair of distinct members of the repeated kind"""
+    M = interleave_members()
+    kinds = list(M)
+
+    def case(*ms):
+        return (len(ms), tuple(m[0] for m in ms)) + tuple(m[1] for m in ms)
+
+    for k1 in kinds:
+        for k2 in kinds:
+            if k1 == k2:
+                continue
+            for xi, xj in itertools.permutations(M[k1], 2):
+                for y in M[k2]:
+                    yield case(xi, y, xj)
+            for xi, xj in itertools.permutations(M[k1], 2):
+                for ya, yb in itertools.permutations(M[k2][:2] if tier == "quick" else M[k2], 2):
+                    yield case(xi, ya, xj, yb)
+            for k3 in kinds:
+                if k3 not in (k1, k2):
+                    yield case(M[k1][0], M[k2][0], M[k3][0], M[k1][1])
+                    yield case(M[k1][0], M[k2][0], M[k1][1], M[k3][0])
+
+
 def all_cases(tier):
-    """(('pair'|'triple'), fams, descriptors...)  -- simplest first"""
+    """(n, fams, descriptor_1 .. descriptor_n)  -- simplest first"""
     U = universe(tier)
     n = len(U)
+    yield from interleaved_cases(tier)
     if tier == "quick":
         for i in range(n):
             for j in range(i, n):
@@ -797,7 +951,8 @@ def _eager(d):
 
 def run_case(case, ctx):
     n, fams, descs = case[0], case[1], case[2:]
-    famkey = "+".join(sorted(set(fams)))
+    # unexplained failures: pairs are keyed by the two families, longer tuples by the collection groups (one defect -> few keys)
+    famkey = "+".join(sorted(set(fams))) if n <= 2 else "tuple:" + "+".join(sorted({group_of(f) for f in fams}))
     with warnings.catch_warnings():
         warnings.simplefilter("ignore")
         colls = [build(d) for d in descs]
